@@ -21,7 +21,7 @@ PATHS = {"p_empty": "", "p_a": "/a", "p_ae": "/a/é", "p_slash": "/"}
 QUERIES = {NONE: "", "q1": "a=1&b=2", "q2": "x=%C3%A9&x=2", "q3": "q=café&z=中"}
 FRAGS = {NONE: "", "f1": "frag"}
 HOSTHDR = {"hh1": "www.example.org", "hh2": "example.org:8443", "hh3": "[::1]:9000"}
-ROOTS = {"r_empty": "", "r_r": "/r"}
+ROOTS = {"r_empty": "", "r_r": "/r", "r_e": "/caf\u00e9"}     # (a mount prefix that is not ASCII: SCRIPT_NAME is Latin-1 text of UTF-8 bytes)
 DEFAULTS = {("http", "80"), ("https", "443"), ("ws", "80"), ("wss", "443")}
 
 
@@ -170,7 +170,7 @@ def run(ctx):
     K = dict(Schemes=frozenset({"http", "wss"}), BuildSchemes=frozenset({"http", "https", "ws", "wss"}), Hosts=frozenset(HOSTS if thorough else ["named", "ipv6"]),
              Ports=frozenset({"80", "443", "8080"}), Users=frozenset({"u1", "u2"}), Passwords=frozenset({"pw1", "pw4"}),
              Paths=frozenset(["p_empty", "p_ae", "p_slash"] if thorough else ["p_empty", "p_ae"]), Queries=frozenset({NONE, "q3"}),
-             Fragments=frozenset(FRAGS if thorough else [NONE]), HostHeaders=frozenset(HOSTHDR), Roots=frozenset(ROOTS),
+             Fragments=frozenset(FRAGS if thorough else [NONE]), HostHeaders=frozenset(HOSTHDR), Roots=frozenset(ROOTS if thorough else ["r_empty", "r_e"]),
              DefaultPort=frozenset(DEFAULTS), EditKeys=frozenset(edit_sets))
     ctx.bounds = {k: (len(v) if isinstance(v, frozenset) else v) for k, v in K.items()}
     ctx.rule = ("every (scheme, server, Host header, root, path, query) and every (URL with a host, set of 1-2 (thorough 3) components "
